@@ -39,8 +39,13 @@ fn ready<F: std::future::Future>(f: F) -> F::Output {
         .expect("in-memory store future was not immediately ready")
 }
 
+/// projection of a replicated value: the serde-based peer view AND the accessor-based view
+fn vproj(v: &ReplicatedValue) -> J {
+    json!({"peer": peer_view(v), "fields": worldgen::access_view(v)})
+}
+
 fn dproj(d: &ReplicationDelta) -> J {
-    json!({"key": d.key, "src": d.source_replica.0, "value": peer_view(&d.value)})
+    json!({"key": d.key, "src": d.source_replica.0, "value": vproj(&d.value)})
 }
 
 fn projs(ds: &[ReplicationDelta]) -> Vec<J> {
@@ -140,7 +145,7 @@ fn last_per_key(deltas: &[ReplicationDelta]) -> BTreeMap<String, ReplicatedValue
 }
 
 fn state_proj(m: &HashMap<String, ReplicatedValue>) -> BTreeMap<String, J> {
-    m.iter().map(|(k, v)| (k.clone(), peer_view(v))).collect()
+    m.iter().map(|(k, v)| (k.clone(), vproj(v))).collect()
 }
 
 fn write_checkpoint(
@@ -159,22 +164,32 @@ fn wal_name(seq: u64) -> String {
     format!("wal-{:08x}.wal", seq)
 }
 
+#[derive(Clone, Debug)]
+struct WEntry {
+    ts: u64,
+    data: Vec<u8>,
+    proj: J,
+}
+
 /// Write all deltas through a WalRotator (stamp = the delta's own Lamport time, as the node
-/// does); returns the store and, per file in sequence order, (name, [(stamp, projection)]).
-#[allow(clippy::type_complexity)]
+/// does); returns the store and, per file in sequence order, (name, entries written).
 fn write_wal(
     deltas: &[ReplicationDelta],
     max_file_size: usize,
-) -> Result<(InMemoryWalStore, Vec<(String, Vec<(u64, J)>)>), String> {
+) -> Result<(InMemoryWalStore, Vec<(String, Vec<WEntry>)>), String> {
     let store = InMemoryWalStore::new();
     let mut rot =
         WalRotator::new(store.clone(), max_file_size).map_err(|e| format!("WalRotator::new: {}", e))?;
-    let mut files: BTreeMap<u64, Vec<(u64, J)>> = BTreeMap::new();
+    let mut files: BTreeMap<u64, Vec<WEntry>> = BTreeMap::new();
     for d in deltas {
         let ts = d.value.timestamp.time;
         let e = WalEntry::from_delta(d, ts).map_err(|e| format!("from_delta: {}", e))?;
         let seq = rot.append(&e).map_err(|e| format!("append: {}", e))?;
-        files.entry(seq).or_default().push((ts, dproj(d)));
+        files.entry(seq).or_default().push(WEntry {
+            ts,
+            data: e.data.clone(),
+            proj: dproj(d),
+        });
     }
     rot.sync().map_err(|e| format!("sync: {}", e))?;
     Ok((
@@ -275,20 +290,23 @@ impl CkRecovery {
     }
 }
 
-fn wal_read(store: &InMemoryWalStore) -> Result<Vec<(u64, Result<J, String>)>, String> {
+fn wal_read(store: &InMemoryWalStore) -> Result<Vec<WalEntry>, String> {
     let rot = WalRotator::new(store.clone(), 1 << 30).map_err(|e| format!("WalRotator::new: {}", e))?;
-    let entries = rot
-        .recover_all_entries()
-        .map_err(|e| format!("recover_all_entries: {}", e))?;
-    Ok(entries
-        .iter()
-        .map(|e| {
-            (
-                e.timestamp,
-                e.to_delta().map(|d| dproj(&d)).map_err(|e| e.to_string()),
-            )
-        })
-        .collect())
+    rot.recover_all_entries()
+        .map_err(|e| format!("recover_all_entries: {}", e))
+}
+
+/// Does the recovered entry carry the written data? Byte-identical data decodes identically;
+/// anything else is decoded and compared by projection.
+fn same_data(got: &WalEntry, want: &WEntry) -> Result<(), String> {
+    if got.data == want.data {
+        return Ok(());
+    }
+    match got.to_delta() {
+        Ok(d) if dproj(&d) == want.proj => Ok(()),
+        Ok(d) => Err(format!("{}", dproj(&d))),
+        Err(e) => Err(format!("passes the entry CRC but does not decode: {}", e)),
+    }
 }
 
 // ---------------------------------------------------------------------------------------
@@ -364,19 +382,17 @@ fn check_roundtrip(case: &RtCase, ctx: &mut CaseCtx<'_>) -> Result<(), String> {
     {
         let (store, files) = write_wal(&deltas, 64 + case.wal_file_size as usize)?;
         let got = wal_read(&store)?;
-        let flat: Vec<(u64, J)> = files.iter().flat_map(|(_, v)| v.iter().cloned()).collect();
+        let flat: Vec<&WEntry> = files.iter().flat_map(|(_, v)| v.iter()).collect();
         if got.len() != flat.len() {
             return Err(format!("wal files: wrote {} entries in {} files, recovered {}", flat.len(), files.len(), got.len()));
         }
-        for (i, ((ts, p), (ts2, p2))) in flat.iter().zip(got.iter()).enumerate() {
-            match p2 {
-                Ok(p2) if p2 == p && ts == ts2 => {}
-                other => {
-                    return Err(format!(
-                        "wal files: entry #{} written as (stamp {}, {}) recovered as (stamp {}, {:?})",
-                        i, ts, p, ts2, other
-                    ))
-                }
+        for (i, (w, g)) in flat.iter().zip(got.iter()).enumerate() {
+            let back = g.to_delta().map(|d| dproj(&d)).map_err(|e| e.to_string());
+            if g.timestamp != w.ts || back.as_ref() != Ok(&w.proj) {
+                return Err(format!(
+                    "wal files: entry #{} written as (stamp {}, {}) recovered as (stamp {}, {:?})",
+                    i, w.ts, w.proj, g.timestamp, back
+                ));
             }
         }
         if files.len() >= 2 {
@@ -414,7 +430,7 @@ fn check_roundtrip(case: &RtCase, ctx: &mut CaseCtx<'_>) -> Result<(), String> {
     // ---- checkpoint
     {
         let state = last_per_key(&deltas);
-        let want_state: BTreeMap<String, J> = state.iter().map(|(k, v)| (k.clone(), peer_view(v))).collect();
+        let want_state: BTreeMap<String, J> = state.iter().map(|(k, v)| (k.clone(), vproj(v))).collect();
         let img = write_checkpoint(&state, case.ts_ms, case.last_seg)?;
         let (got, kc, ts, ls) = ck_direct(&img).map_err(|e| format!("checkpoint: intact image rejected: {}", e))?;
         if kc != state.len() as u64 || ts != case.ts_ms || ls != case.last_seg {
@@ -444,14 +460,14 @@ fn check_roundtrip(case: &RtCase, ctx: &mut CaseCtx<'_>) -> Result<(), String> {
             .collect();
         let msgs = vec![
             GossipMessage::new_delta_batch(src, deltas.clone(), case.epoch),
-            GossipMessage::new_targeted_delta(src, ReplicaId::new(case.ts_ms), deltas.clone(), case.epoch),
+            GossipMessage::new_targeted_delta(src, ReplicaId::new(case.ts_ms), deltas[..deltas.len().min(3)].to_vec(), case.epoch),
             GossipMessage::SyncRequest {
                 source_replica: src,
                 known_versions: known,
             },
             GossipMessage::SyncResponse {
                 source_replica: src,
-                deltas: deltas.clone(),
+                deltas: deltas[deltas.len().saturating_sub(3)..].to_vec(),
             },
             GossipMessage::new_heartbeat(src, case.epoch),
         ];
@@ -741,7 +757,7 @@ fn check_mut_checkpoint(case: &MutCase, ctx: &mut CaseCtx<'_>) -> Result<(), Str
         return Ok(());
     }
     let state = last_per_key(&deltas);
-    let want_state: BTreeMap<String, J> = state.iter().map(|(k, v)| (k.clone(), peer_view(v))).collect();
+    let want_state: BTreeMap<String, J> = state.iter().map(|(k, v)| (k.clone(), vproj(v))).collect();
     let want: CkOut = (want_state.clone(), state.len() as u64, case.ts_ms, case.last_seg);
     let img = write_checkpoint(&state, case.ts_ms, case.last_seg)?;
     let n = img.len();
@@ -818,8 +834,8 @@ fn check_mut_wal(case: &MutCase, ctx: &mut CaseCtx<'_>) -> Result<(), String> {
         if starts.len() != entries.len() || off != n {
             return Err(format!("harness: walked {} entries to offset {} of {}, wrote {}", starts.len(), off, n, entries.len()));
         }
-        let before: Vec<&(u64, J)> = files[..fi].iter().flat_map(|(_, v)| v.iter()).collect();
-        let after: Vec<&(u64, J)> = files[fi + 1..].iter().flat_map(|(_, v)| v.iter()).collect();
+        let before: Vec<&WEntry> = files[..fi].iter().flat_map(|(_, v)| v.iter()).collect();
+        let after: Vec<&WEntry> = files[fi + 1..].iter().flat_map(|(_, v)| v.iter()).collect();
         let full = ctx.tier() == vcore::Tier::Thorough || n <= FULL_LIMIT;
         ctx.label(if full { "enumerated_completely" } else { "structural_plus_sampled" });
         let structural = |p: usize| wal_field(p, &starts).0 != "entry.data";
@@ -843,12 +859,12 @@ fn check_mut_wal(case: &MutCase, ctx: &mut CaseCtx<'_>) -> Result<(), String> {
             }
             let k = got.len() - fixed;
             let expect = before.iter().copied().chain(entries[..k].iter()).chain(after.iter().copied());
-            for (j, ((ts, p), (ts2, p2))) in expect.zip(got.iter()).enumerate() {
-                let same_data = matches!(p2, Ok(x) if x == p);
-                if !same_data {
+            for (j, (w, g)) in expect.zip(got.iter()).enumerate() {
+                let (ts, ts2) = (w.ts, g.timestamp);
+                if let Err(what) = same_data(g, w) {
                     return Err(format!(
-                        "wal file {}, {}: recovered entry #{} is different data: written (stamp {}, {}), recovered (stamp {}, {:?})",
-                        name, m.describe(n, field), j, ts, p, ts2, p2
+                        "wal file {}, {}: recovered entry #{} is different data: written (stamp {}, {}), recovered (stamp {}, {})",
+                        name, m.describe(n, field), j, ts, w.proj, ts2, what
                     ));
                 }
                 if ts != ts2 {
@@ -891,6 +907,7 @@ fn rt_cfg() -> GenCfg {
         max_fields: 40,
         small: 40,
         big: true,
+        big_max: 65537,
         crdt: true,
         bump: true,
         typed: false,
@@ -908,6 +925,7 @@ fn mut_cfg() -> GenCfg {
         max_fields: 4,
         small: 12,
         big: false,
+        big_max: 0,
         crdt: true,
         bump: true,
         typed: false,
@@ -921,11 +939,12 @@ fn mut_cfg() -> GenCfg {
 /// mostly small images (enumerated completely); one in eight has many ops / big payloads
 fn mut_case() -> impl Strategy<Value = MutCase> {
     let big = GenCfg {
-        max_ops: 30,
+        max_ops: 14,
         small: 40,
         big: true,
-        max_hfields: 20,
-        max_fields: 20,
+        big_max: 4096,
+        max_hfields: 12,
+        max_fields: 12,
         ..mut_cfg()
     };
     (
@@ -1035,18 +1054,18 @@ fn main() {
     );
 
     s.describe_check("mut_segment", "all truncations + all byte mutations of one segment image; error or identical");
-    s.run_cases("mut_segment", s.scale(320, 16_000), mut_case, check_mut_segment);
+    s.run_cases("mut_segment", s.scale(1_200, 24_000), mut_case, check_mut_segment);
     s.describe_check("mut_checkpoint", "all truncations + all byte mutations of one checkpoint image; error or identical");
-    s.run_cases("mut_checkpoint", s.scale(320, 16_000), mut_case, check_mut_checkpoint);
+    s.run_cases("mut_checkpoint", s.scale(1_200, 24_000), mut_case, check_mut_checkpoint);
     s.describe_check("mut_wal", "all truncations + all byte mutations of every file of a WAL file set; prefix of the written entries, identical data");
-    s.run_cases("mut_wal", s.scale(320, 16_000), mut_case, check_mut_wal);
+    s.run_cases("mut_wal", s.scale(1_200, 24_000), mut_case, check_mut_wal);
 
     let g = OUTCOMES.lock().unwrap();
     let table: BTreeMap<&String, J> = g
         .iter()
-        .map(|(k, (d, i))| (k, json!({"detected": d, "accepted_identical": i})))
+        .map(|(k, (d, i))| (k, json!([d, i])))
         .collect();
-    s.note("mutation_outcomes_by_field", json!(table));
+    s.note("mutation_outcomes_by_field", json!({"columns": "encoding/field/kind -> [detected (error or shorter WAL list), accepted with identical data (for wal/entry.stamp: identical data, stamp altered = KF-C10-01)]", "table": table}));
     drop(g);
     s.finish();
 }
